@@ -385,6 +385,7 @@ class Interp(ExprMixin, StmtMixin):
                 return r
         obj = Obj(cv)
         obj.sym_fields = None
+        obj.constructed = True
         init = self.find_method(cv, "__init__")
         if isinstance(init, Closure):
             self.call_value(init.bind(obj), args, kwargs, path)
@@ -617,6 +618,7 @@ class Interp(ExprMixin, StmtMixin):
 
         for p, res in explore(one, axioms=axioms, max_paths=max_paths, timeout_ms=timeout_ms, name_prefix=name_prefix):
             results.append((p,) + tuple(res))
+        _drv.OUTCOMES.setdefault(qualname, []).extend(r[1].kind for r in results)
         return results
 
 
